@@ -6,6 +6,8 @@ address-space constant, one PRE prefix, one view) is compared across all of its 
   Python decoder      sc62015/pysc62015/instr/opcode_table.py, opcodes.py, instructions.py
   Binary Ninja        sc62015/arch.py (SC62015.regs), sc62015/view.py (SEGMENTS)
   Python emulator     sc62015/pysc62015/emulator.py, constants.py, intrinsics.py (+ pce500 copies)
+  Snapshot format     pce500/emulator.py _SNAPSHOT_REGISTER_LAYOUT vs snapshot.rs SNAPSHOT_REGISTER_LAYOUT: position
+                      and width of every register inside registers.bin, declared and observed, blobs crossed
   Rust core           llama/opcodes.rs, llama/state.rs, memory.rs, pce500.rs, lib.rs, snapshot.rs (pub items
                       dumped by rust/harness/src/c17.rs) and, for the private copies in llama/eval.rs and
                       lib.rs, behavioural probes (execute IR / RESET / power_on_reset / an interrupt / one
@@ -27,7 +29,10 @@ from .. import pycore, rsclient
 PROPERTY = "C17"
 RULE = ("finite, complete: one case per duplicated item -- 256 opcode rows (normalised Python row vs Rust row), "
         "one canonical encoding per non-prefix opcode (table-derived length vs Python core vs Rust core), every "
-        "register (storage width, effective mask, sub-register layout, r3 index), every IMEM register named on "
+        "register (storage width, effective mask, sub-register layout, r3 / pointer / register-pair selector code), "
+        "every register of the serialised register table (position and width inside registers.bin, as declared and "
+        "as observed on every pack/unpack route of both languages; each side's blob read back by the other), "
+        "every IMEM register named on "
         "both sides (+ BP/PX/PY as actually used by both cores), interrupt and reset vector (constants + "
         "behavioural probes), address-space constants, the 15 PRE prefixes (table vs both cores), and "
         "disjoint / inside / internal-RAM placement per Binary Ninja view. Non-trivial = an opcode row with "
@@ -663,6 +668,338 @@ def check_registers(rust: Any, dump: Dict[str, Any]) -> List[Item]:
 
 
 # --------------------------------------------------------------------------------------------------
+# B2. the serialised register table (registers.bin of the .pcsnap format)
+# --------------------------------------------------------------------------------------------------
+# The snapshot register layout (register name, byte width, *position*) exists once per language:
+# pce500/emulator.py:_SNAPSHOT_REGISTER_LAYOUT and sc62015/core/src/snapshot.rs:SNAPSHOT_REGISTER_LAYOUT.
+# A table of (name, width) rows is an ordered thing: the byte offset of every register inside registers.bin
+# is the sum of the widths in front of it.  Each copy is therefore reduced to {register: [offset, width]} and
+# compared per register -- as declared and as observed on every pack / unpack route of both languages -- and
+# each side's blob is handed to the other side (the table only exists so that this works).
+
+SNAP_REGS = ("PC", "BA", "I", "X", "Y", "U", "S", "F")
+# probe values: register number k (1..8), byte j of register k is 0x10*k+1, 0x10*k+2, k -- all 20 bytes are
+# distinct and non-zero, every value fits the register's effective mask (20 significant bits in 3 bytes).
+_SNAP_ARCH_BYTES = {"PC": 3, "BA": 2, "I": 2, "X": 3, "Y": 3, "U": 3, "S": 3, "F": 1}
+
+
+def _snap_tag_bytes(name: str) -> List[int]:
+    k = SNAP_REGS.index(name) + 1
+    return [0x10 * k + 1, 0x10 * k + 2, k][: _SNAP_ARCH_BYTES[name]]
+
+
+def _snap_tag_value(name: str) -> int:
+    return sum(b << (8 * j) for j, b in enumerate(_snap_tag_bytes(name)))
+
+
+def _snap_ramp(length: int) -> List[int]:
+    """Blob whose byte i identifies i: distinct, non-zero, low nibble non-zero (survives the 20-bit mask)."""
+    return [i + 1 + i // 15 for i in range(length)]
+
+
+def _snap_slots_from_table(table: Sequence[Tuple[str, int]]) -> Dict[str, Any]:
+    out: Dict[str, Any] = {}
+    off = 0
+    for n, w in table:
+        n = str(n).upper()
+        out[n] = "listed more than once" if n in out else [off, int(w)]
+        off += int(w)
+    return out
+
+
+def _snap_slots_from_blob(blob: Sequence[int]) -> Dict[str, Any]:
+    """Where did a pack route put each register's (self-identifying) bytes?"""
+    out: Dict[str, Any] = {}
+    for n in SNAP_REGS:
+        tags = _snap_tag_bytes(n)
+        pos = [i for i, b in enumerate(blob) if b in tags]
+        if not pos:
+            out[n] = "absent"
+        elif pos != list(range(pos[0], pos[0] + len(pos))) or [blob[i] for i in pos] != tags[: len(pos)]:
+            out[n] = "bytes not contiguous little-endian"
+        else:
+            out[n] = [pos[0], len(pos)]
+    return out
+
+
+def _snap_slots_from_values(vals: Dict[str, int], length: int) -> Dict[str, Any]:
+    """Which bytes of the ramp blob did an unpack route put into each register?"""
+    ramp = _snap_ramp(length)
+    out: Dict[str, Any] = {}
+    for n in SNAP_REGS:
+        if n not in vals:
+            out[n] = "absent"
+            continue
+        v = int(vals[n])
+        if (v & 0xFF) not in ramp:
+            out[n] = "unrecognised value"
+            continue
+        out[n] = [ramp.index(v & 0xFF), sum(1 for j in range(4) if (v >> (8 * j)) & 0xFF)]
+    return out
+
+
+def _py_registers_with(values: Dict[str, int]) -> Any:
+    from sc62015.pysc62015.emulator import Registers, RegisterName
+
+    r = Registers()
+    for n, v in values.items():
+        r.set(RegisterName[n], v)
+    return r
+
+
+def _pce500_snapshot_routes(values: Dict[str, int], ramp_len: int) -> Dict[str, Any]:
+    """registers.bin as PCE500Emulator.save_snapshot writes it (registers set through the CPU facade) and the
+    CPU registers after PCE500Emulator.load_snapshot of the same bundle with registers.bin replaced by the ramp."""
+    import os
+    import tempfile
+    import zipfile
+
+    from sc62015.pysc62015.emulator import RegisterName
+
+    out: Dict[str, Any] = {}
+    try:
+        emu = _pce500_emulator(_vector_page())
+        emu.reset()
+    except _Skip:
+        return out
+    except Exception:
+        return out
+    with tempfile.TemporaryDirectory(prefix="vh-c17-") as d:
+        path = os.path.join(d, "a.pcsnap")
+        try:
+            for n, v in values.items():
+                emu.cpu.regs.set(RegisterName[n], v)
+            emu.save_snapshot(path)
+            with zipfile.ZipFile(path, "r") as zf:
+                names = zf.namelist()
+                members = {n: zf.read(n) for n in names}
+        except Exception:
+            return out
+        if "registers.bin" not in members:
+            return out
+        out["save"] = list(members["registers.bin"])
+        members["registers.bin"] = bytes(_snap_ramp(ramp_len))
+        path2 = os.path.join(d, "b.pcsnap")
+        try:
+            with zipfile.ZipFile(path2, "w", compression=zipfile.ZIP_DEFLATED) as zf:
+                for n in names:
+                    zf.writestr(n, members[n])
+            emu.load_snapshot(path2)
+            out["load"] = {n: int(emu.cpu.regs.get(RegisterName[n])) for n in SNAP_REGS}
+        except Exception as exc:  # noqa: BLE001
+            out["load"] = f"error {type(exc).__name__}"
+    return out
+
+
+def check_snapshot_layout(rust: Any, dump: Dict[str, Any]) -> List[Item]:
+    try:
+        import pce500.emulator as PE
+        from sc62015.pysc62015.stepper import CPURegistersSnapshot
+    except Exception:  # the pce500 package is optional for this check: nothing is duplicated without it
+        return []
+    if not hasattr(PE, "_SNAPSHOT_REGISTER_LAYOUT"):
+        return []
+
+    items: List[Item] = []
+    rs_table = [(str(n), int(w)) for n, w in dump["snapshot_register_layout"]]
+    py_table = [(str(n).upper(), int(w)) for n, w in PE._SNAPSHOT_REGISTER_LAYOUT]
+    values = {n: _snap_tag_value(n) for n in SNAP_REGS}
+
+    # ---- every route, reduced to {register: [offset, width]} (or a describing string)
+    routes: List[Tuple[str, Dict[str, Any]]] = [
+        ("rust SNAPSHOT_REGISTER_LAYOUT", _snap_slots_from_table(rs_table)),
+        ("pce500 _SNAPSHOT_REGISTER_LAYOUT", _snap_slots_from_table(py_table)),
+    ]
+    sizes: List[Tuple[str, Any]] = [("rust SNAPSHOT_REGISTER_LAYOUT (sum of widths)", sum(w for _, w in rs_table)),
+                                    ("pce500 _SNAPSHOT_REGISTER_LAYOUT (sum of widths)", sum(w for _, w in py_table))]
+
+    resp = rust.call({"cmd": "c17.snapshot_pack", "regs": values})
+    if not resp.get("ok"):
+        raise HarnessError(f"c17.snapshot_pack failed: {resp}")
+    rs_blob = [int(b) for b in resp["direct"]]
+    rs_blob_state = [int(b) for b in resp["state"]]
+    routes.append(("rust pack_registers (observed)", _snap_slots_from_blob(rs_blob)))
+    routes.append(("rust LlamaState -> collect_registers -> pack_registers (observed)", _snap_slots_from_blob(rs_blob_state)))
+    sizes.append(("rust pack_registers (observed length)", len(rs_blob)))
+
+    py_blob: Optional[List[int]] = None
+    try:
+        py_blob = list(PE._pack_register_bytes(CPURegistersSnapshot.from_registers(_py_registers_with(values))))
+        routes.append(("pce500 Registers -> CPURegistersSnapshot -> _pack_register_bytes (observed)", _snap_slots_from_blob(py_blob)))
+        sizes.append(("pce500 _pack_register_bytes (observed length)", len(py_blob)))
+    except Exception as exc:  # noqa: BLE001
+        routes.append(("pce500 Registers -> CPURegistersSnapshot -> _pack_register_bytes (observed)",
+                       {n: f"error {type(exc).__name__}" for n in SNAP_REGS}))
+
+    ramp_len = majority(sizes)
+    ramp = _snap_ramp(int(ramp_len))
+    resp = rust.call({"cmd": "c17.snapshot_unpack", "bytes": ramp})
+    if not resp.get("ok"):
+        raise HarnessError(f"c17.snapshot_unpack failed: {resp}")
+    if "error" in resp:
+        bad = {n: "rejects a blob of the agreed length" for n in SNAP_REGS}
+        routes.append(("rust unpack_registers (observed)", bad))
+    else:
+        routes.append(("rust unpack_registers (observed)", _snap_slots_from_values(resp["direct"], len(ramp))))
+        routes.append(("rust unpack_registers -> apply_registers -> LlamaState (observed)",
+                       _snap_slots_from_values(resp["state"], len(ramp))))
+    try:
+        got = {str(k).upper(): int(v) for k, v in PE._unpack_register_bytes(bytes(ramp)).items()}
+        routes.append(("pce500 _unpack_register_bytes (observed)", _snap_slots_from_values(got, len(ramp))))
+    except Exception:  # noqa: BLE001
+        routes.append(("pce500 _unpack_register_bytes (observed)", {n: "rejects a blob of the agreed length" for n in SNAP_REGS}))
+
+    machine = _pce500_snapshot_routes(values, len(ramp))
+    if "save" in machine:
+        routes.append(("pce500 PCE500Emulator.save_snapshot, registers.bin (observed)", _snap_slots_from_blob(machine["save"])))
+        sizes.append(("pce500 PCE500Emulator.save_snapshot, registers.bin (observed length)", len(machine["save"])))
+    if isinstance(machine.get("load"), dict):
+        routes.append(("pce500 PCE500Emulator.load_snapshot (observed)", _snap_slots_from_values(machine["load"], len(ramp))))
+    elif "load" in machine:
+        routes.append(("pce500 PCE500Emulator.load_snapshot (observed)", {n: "rejects a bundle with a blob of the agreed length" for n in SNAP_REGS}))
+
+    # ---- the set of serialised registers and the blob size
+    it = Item("snap-layout:registers", True, ["snapshot-layout"],
+              {"rust": [[n, w] for n, w in rs_table], "pce500": [[n, w] for n, w in py_table]})
+    group_check(it, "snapshot-register-set", [("rust SNAPSHOT_REGISTER_LAYOUT", sorted(n for n, _ in rs_table)),
+                                              ("pce500 _SNAPSHOT_REGISTER_LAYOUT", sorted(n for n, _ in py_table))],
+                topic="serialised register set")
+    items.append(it)
+    it = Item("snap-layout:size", True, ["snapshot-layout"], {"copies": {k: v for k, v in sizes}})
+    group_check(it, "snapshot-blob-size", sizes, topic="registers.bin size")
+    items.append(it)
+
+    # ---- per register: position and width in every copy / on every route
+    for n in SNAP_REGS:
+        srcs = [(f"{lb} [{n}]", slots.get(n, "absent")) for lb, slots in routes]
+        it = Item(f"snap-slot:{n}", True, ["snapshot-layout", "snapshot-slot"],
+                  {"register": n, "copies": {k: _hex(v) if not isinstance(v, list) else v for k, v in srcs}})
+        group_check(it, "snapshot-register-slot", srcs, topic=f"register {n} inside registers.bin")
+        items.append(it)
+
+    # ---- crossing: what one language writes, the other must read back under the same names
+    def crossed(label: str, item_id: str, got: Any) -> None:
+        it = Item(item_id, True, ["snapshot-layout", "snapshot-cross"],
+                  {"route": label, "written": {k: hex(v) for k, v in values.items()},
+                   "read": {k: hex(v) for k, v in got.items()} if isinstance(got, dict) else got})
+        if not isinstance(got, dict):
+            it.violate("snapshot-cross", label, "the reader rejects the writer's register blob", str(got))
+        else:
+            for n in SNAP_REGS:
+                if got.get(n) == values[n]:
+                    continue
+                src = [m for m in SNAP_REGS if values[m] == got.get(n)]
+                sym = (f"register {n} is restored with the value of another register" if src
+                       else f"register {n} is not restored with the value that was saved")
+                it.violate("snapshot-cross", label, sym,
+                           f"{n}: saved {values[n]:#x}, restored {_hex(got.get(n))}" + (f" (= saved {src[0]})" if src else ""))
+        items.append(it)
+
+    if py_blob is not None:
+        resp = rust.call({"cmd": "c17.snapshot_unpack", "bytes": py_blob})
+        if not resp.get("ok"):
+            raise HarnessError(f"c17.snapshot_unpack failed: {resp}")
+        crossed("registers.bin written by pce500 (_pack_register_bytes), read by the rust core (unpack_registers -> LlamaState)",
+                "snap-cross:py-to-rs", resp.get("error") or {k: int(v) for k, v in resp["state"].items()})
+    try:
+        back = {str(k).upper(): int(v) for k, v in PE._unpack_register_bytes(bytes(rs_blob_state)).items()}
+        regs = _py_registers_with({k: v for k, v in back.items() if k in SNAP_REGS})
+        from sc62015.pysc62015.emulator import RegisterName
+
+        got_py: Any = {k: int(regs.get(RegisterName[k])) for k in SNAP_REGS if k in back}
+    except Exception as exc:  # noqa: BLE001
+        got_py = f"error {type(exc).__name__}: {str(exc)[:80]}"
+    crossed("registers.bin written by the rust core (LlamaState -> pack_registers), read by pce500 (_unpack_register_bytes -> Registers)",
+            "snap-cross:rs-to-py", got_py)
+    return items
+
+
+# --------------------------------------------------------------------------------------------------
+# B3. register selector codes inside operand bytes (position in the table = the code)
+# --------------------------------------------------------------------------------------------------
+# Besides REG_NAMES (r3 of INC/DEC, judged in reg-index:*), the code -> register mapping exists in
+# opcodes.RegPair._regpair_name (two variants: MV/EX and the arithmetic rows) and in eval.rs as the private
+# regpair_name / reg_from_selector.  The Rust copies are observed: which register changes / which register's
+# value is used as the address.
+
+_SEL_REGS = {"BA": 0x1101, "I": 0x2202, "X": 0x33303, "Y": 0x44404, "U": 0x55505, "S": 0x66606, "F": 0}
+_FAMILY = {"A": "BA", "IL": "I"}
+
+
+def _changed(res: Dict[str, Any], regs: Dict[str, int]) -> Optional[List[str]]:
+    if "err" in res or "regs" not in res:
+        return None
+    return [k for k in ("BA", "I", "X", "Y", "U", "S") if res["regs"][k] != regs[k]]
+
+
+def _pair_effect_mv(res: Dict[str, Any]) -> str:
+    """MV r,r' : exactly one register changes; the low 16 bits of its new value name the source."""
+    ch = _changed(res, _SEL_REGS)
+    if ch is None or len(ch) != 1:
+        return f"unrecognised effect (changed: {ch})"
+    low = res["regs"][ch[0]] & 0xFFFF
+    src = [k for k, v in _SEL_REGS.items() if k != "F" and (v & 0xFFFF) == low]
+    return f"{ch[0]} <- {src[0]}" if len(src) == 1 else f"unrecognised effect ({ch[0]} <- ?)"
+
+
+def _pair_effect_add(res: Dict[str, Any]) -> str:
+    """ADD r,r' : exactly one register changes; its low byte grows by the low byte of the source."""
+    ch = _changed(res, _SEL_REGS)
+    if ch is None or len(ch) != 1:
+        return f"unrecognised effect (changed: {ch})"
+    delta = (res["regs"][ch[0]] - _SEL_REGS[ch[0]]) & 0xFF
+    src = [k for k, v in _SEL_REGS.items() if k != "F" and (v & 0xFF) == delta]
+    return f"{ch[0]} <- {src[0]}" if len(src) == 1 else f"unrecognised effect ({ch[0]} <- ?)"
+
+
+def check_selector_codes(rust: Any) -> List[Item]:
+    from sc62015.pysc62015.instr import opcodes as O
+
+    items: List[Item] = []
+    namer = getattr(getattr(O, "RegPair", None), "_regpair_name", None)
+    for tag, opcode, use_r2, effect in (("mv", 0xFD, True, _pair_effect_mv), ("alu", 0x46, False, _pair_effect_add)):
+        for idx in range(8):
+            partner = 4 if idx != 4 else 5
+            probes = [bytes([opcode, (idx << 4) | partner]), bytes([opcode, (partner << 4) | idx])]
+            srcs: List[Tuple[str, Any]] = []
+            if callable(namer):
+                try:
+                    me = str(namer(idx, use_r2))
+                    other = str(namer(partner, use_r2))
+                    me, other = _FAMILY.get(me, me), _FAMILY.get(other, other)
+                    srcs.append((f"opcodes.RegPair._regpair_name [{tag} code {idx}]", [f"{me} <- {other}", f"{other} <- {me}"]))
+                except Exception:  # noqa: BLE001
+                    pass
+            srcs.append((f"python core, opcode {opcode:02X} [{tag} code {idx}]",
+                         [effect(py_run(c, _SEL_REGS, {})) for c in probes]))
+            srcs.append((f"rust core, opcode {opcode:02X} [{tag} code {idx}]",
+                         [effect(rs_run(rust, c, _SEL_REGS, {})) for c in probes]))
+            it = Item(f"regpair-index:{tag}:{idx}", True, ["reg:pair-index"],
+                      {"mapping": tag, "code": idx, "probes": [c.hex() for c in probes], "copies": {k: v for k, v in srcs}})
+            group_check(it, "register-pair-index", srcs, topic=f"{tag} register-pair code {idx}")
+            items.append(it)
+
+    # pointer register of [r3]: MV A,[r3] (opcode 90, simple mode) for the documented pointer registers X,Y,U,S
+    by_addr = {v: k for k, v in _SEL_REGS.items() if k in ("X", "Y", "U", "S")}
+    for idx in range(4, 8):
+        code = bytes([0x90, idx])
+
+        def pointer(res: Dict[str, Any]) -> str:
+            hit = sorted({by_addr[a] for a in res.get("reads", []) if a in by_addr})
+            if "err" in res or len(hit) != 1:
+                return f"unrecognised access pattern ({hit} {res.get('err', '')})"
+            return hit[0]
+
+        srcs = [(f"opcodes.REG_NAMES [index {idx}]", str(O.REG_NAMES[idx])),
+                (f"python core MV A,[r3] [index {idx}]", pointer(py_run(code, _SEL_REGS, {}))),
+                (f"rust core MV A,[r3] [index {idx}]", pointer(rs_run(rust, code, _SEL_REGS, {})))]
+        it = Item(f"ptr-index:{idx}", True, ["reg:pointer-index"], {"index": idx, "code": code.hex(), "copies": {k: v for k, v in srcs}})
+        group_check(it, "register-index", srcs, topic=f"pointer register index {idx}")
+        items.append(it)
+    return items
+
+
+# --------------------------------------------------------------------------------------------------
 # C. internal-memory registers
 # --------------------------------------------------------------------------------------------------
 
@@ -1114,6 +1451,8 @@ def collect_items() -> List[Item]:
     items += check_lengths(dict(OPCODES), rust)
     items += check_rel_sign(dict(OPCODES), rust)
     items += check_registers(rust, dump)
+    items += check_snapshot_layout(rust, dump)
+    items += check_selector_codes(rust)
     items += check_imem(rust, dump)
     items += check_vectors(rust, dump)
     items += check_address_space(rust, dump)
@@ -1143,6 +1482,13 @@ ASSUMPTIONS = [
     "segments (END-START) are not judged",
     "pce500 package copies (INTERNAL_MEMORY_START, ROM/RAM windows, snapshot register layout, reset path) are "
     "included when the package imports; they are skipped silently otherwise",
+    "snapshot register table: a table of (name, width) rows is ordered -- the position of a register inside "
+    "registers.bin is the sum of the widths in front of it -- so the copies are compared as {register: [offset, "
+    "width]}; only registers.bin is judged here (snapshot metadata, version and continuation belong to C16)",
+    "register-pair codes are observed on MV r,r' (FD) and ADD r,r' (46) only, with X or Y as the partner: the "
+    "register that changes names the destination, the low 16 bits (MV) / low-byte increment (ADD) name the source; "
+    "A vs BA and IL vs I are not distinguished (a width question, judged in the opcode rows); the [r3] pointer "
+    "selector only for the documented pointer registers X,Y,U,S (codes 4-7)",
 ]
 
 
@@ -1161,7 +1507,8 @@ def run(ctx: Ctx) -> Report:
 
 _SAMPLE_IDS = ("opcode:42", "opcode:E3", "opcode:56", "len:F0", "reg-width:X", "reg-width:PC", "subreg:B",
                "reg-index:1", "imem:BP", "imem-use:PY", "vector:interrupt", "vector:reset",
-               "const:INTERNAL_MEMORY_START", "pre:37", "view:SC62015FullView:disjoint", "opcode:D6")
+               "const:INTERNAL_MEMORY_START", "pre:37", "view:SC62015FullView:disjoint", "opcode:D6",
+               "snap-slot:U", "snap-cross:py-to-rs", "regpair-index:mv:6", "ptr-index:7")
 
 
 def _want_sample(rep: Report, it: Item) -> bool:
